@@ -346,7 +346,7 @@ class Effects:
                 for o in i.ops:
                     note_read(cprov(o))
                 return
-            if name in PURE_EXT or name.startswith('llvm.dbg') or name.startswith('llvm.lifetime'):
+            if name in PURE_EXT or name.startswith('llvm.dbg') or name.startswith('llvm.lifetime') or name.startswith('llvm.prefetch'):
                 return
             if self.lib.meta['asm'] and name in ASM_KERNELS:
                 w, r = ASM_KERNELS[name]
